@@ -1,4 +1,5 @@
 import EpgVerif.Props.C13
+import EpgVerif.Props.C13Prune
 import EpgVerif.Tie.ShiftSites
 open EpgVerif.Props.C13
 #print axioms inv_step
@@ -9,3 +10,10 @@ open EpgVerif.Props.C13
 #print axioms merge_preserves_sum
 #print axioms merge_error_bound
 #print axioms EpgVerif.Tie.ShiftSites.sites_as_modelled
+#print axioms prune_decomposition
+#print axioms lrun_energy
+#print axioms prune_error
+#print axioms energy_removed_le
+#print axioms prune_error_eps
+#print axioms prune_disabled_exact
+#print axioms removed_le_present
